@@ -253,12 +253,11 @@ def dump_to_json(ol, fname, description='', indent=1, gz=True):
         if not fname.endswith('.gz'):
             fname += '.gz'
 
-        fp = gzip.open(fname, 'wb')
-        fp.write(jsonstring.encode('utf-8'))
+        with gzip.open(fname, 'wb') as fp:
+            fp.write(jsonstring.encode('utf-8'))
     else:
-        fp = open(fname, 'w', encoding='utf-8')
-        fp.write(jsonstring)
-    fp.close()
+        with open(fname, 'w', encoding='utf-8') as fp:
+            fp.write(jsonstring)
 
 
 def _parse_json_dict(json_dict, verbose=True, full_output=False):
